@@ -319,3 +319,29 @@ Fixpoint scan_rel (st : store) (y : yexp) (es : list event) : option (store * ye
       end
     else None
   end.
+
+(* C09 "keeps it until the broker's PUBACK or PUBCOMP (replacing it by the PUBREL once PUBREC arrived)":
+   DeletePacket(Outgoing, id) happens only as the processor's first move after receiving an
+   acknowledgement that carries id; SavePacket(Outgoing, PUBREL id) only as its first move after
+   receiving PUBREC id.  (The API calls only ever save their own request.) *)
+Definition kept_step (x : option packet) (e : event) : option (option packet) :=
+  match e with
+  | ENew _ => Some None
+  | EDelete Outgoing id _ =>
+    match x with
+    | Some p => if is_ack_for id p then Some None else None
+    | None => None
+    end
+  | ESave Outgoing (Pubrel id) _ =>
+    match x with
+    | Some (Pubrec id') => if id =? id' then Some None else None
+    | _ => None
+    end
+  | _ => if proc_obs e then (match e with ERx p => Some (Some p) | _ => Some None end) else Some x
+  end.
+
+Fixpoint scan_kept (x : option packet) (es : list event) : option (option packet) :=
+  match es with
+  | [] => Some x
+  | e :: es' => match kept_step x e with Some x' => scan_kept x' es' | None => None end
+  end.
